@@ -114,6 +114,8 @@ def gen_ops(rng, present, n):
             present.discard(p); present.add(q)
     if rng.random() < 0.3:
         ops.append("echo:hello %d" % rng.randrange(9))
+    if rng.random() < 0.2:
+        ops.append("progress:hello %d" % rng.randrange(9))      # output ending in a bare carriage return
     return ops, present
 
 
